@@ -25,8 +25,8 @@ def gen_case(rng, cid, nmax=3, rotations_only=False, ev="FaceOp"):
         g = c05.face_grid(rng, N, nf, entries, nextra=rng.choice([0, 0, 1]))
         axnames = ["a1", "a2"]
         g["ctor"] = {"periodic": {"k": "b", "v": rng.random() < 0.3},
-                     "boundary": gen.rand_tagged(rng, axnames, gen.RULES, total_only=True),
-                     "fill_value": gen.rand_tagged(rng, axnames, [-3, 0, 2, 7], total_only=True), "default_shifts": NONE}
+                     "boundary": gen.rand_tagged(rng, axnames, gen.RULES, partial=True),
+                     "fill_value": gen.rand_tagged(rng, axnames, [-3, 0, 2, 7], partial=True), "default_shifts": NONE}
         d1 = [["d9", nf], ["d1", N], ["d4", N]] + [list(e) for e in g["extra"]]
         rng.shuffle(d1)
         data = gen.rand_data(rng, d1, -9, 9)
